@@ -219,7 +219,8 @@ def run(ctx):
                     continue
                 found += 1
                 src = open(path, "rb").read().decode("utf-8", "replace")
-                ctx.violation("stage-diff:%s:%s" % (kind, label.split(":")[0]),
+                # (the key names the input for the committed families, so that a known finding can be that specific)
+                ctx.violation("stage-diff:%s:%s" % (kind, label if label.split(":")[0] in ("harvest", "corpus", "own") else label.split(":")[0]),
                               "stage 1 and stage 2 differ in %s on %s (-t %s, mode %s): rc %s vs %s; stderr1=%r stderr2=%r" % (
                                   kind, label, t, mode, a1["rc"], a2["rc"], a1["_err"], a2["_err"]),
                               {"label": label, "target": t, "mode": mode, "source": src[:20000]})
